@@ -412,9 +412,6 @@ fn spawn_async_ao_list_in_task'''),
 ''', '''                result = ExecutionResult::stopped();
                 shell.set_last_exit_status(result.exit_code.into());
 '''),
-        ('pipeline-status-is-first-stage', IN, '''            ExecutionWaitResult::Completed(current_result) => {
-                result = current_result;''', '''            ExecutionWaitResult::Completed(current_result) => {
-                if shell.last_pipeline_statuses_mut().is_empty() { result = current_result; }'''),
     ],
     'U5': [
         ('sub-becomes-add', AR, 'Ok(left.wrapping_sub(right))', 'Ok(left.wrapping_add(right))'),
